@@ -72,7 +72,10 @@ def run_step(case, rec):
         mins = [case["minimize"], not case["minimize"]]
         prob = MultiObjectiveProblem(mins, fit)
         for ind, v in zip(inds, case["values"]):
-            fit.prescribe(ind.get_phenotype(), [float(v), 0.0 if v in (float("inf"), float("-inf")) else float((v * 3) % 2)])
+            # an invalid program scored inf on EVERY objective (directions are mixed here): its default aggregate is
+            # -inf + inf; whatever rank it gets, the individuals with ordinary values must still be ranked among themselves
+            second = (float("inf") if v == float("inf") and case["seed"] % 2 else 0.0) if v in (float("inf"), float("-inf")) else float((v * 3) % 2)
+            fit.prescribe(ind.get_phenotype(), [float(v), second])
     else:
         prob = SingleObjectiveProblem(fit, minimize=case["minimize"])
         for ind, v in zip(inds, case["values"]):
@@ -126,7 +129,16 @@ def run_step(case, rec):
         return
     chosen = {id(o) for o in out}
     excluded = [i for i in inds if id(i) not in chosen]
-    if excluded and min(goodness(o) for o in out) < max(goodness(x) for x in excluded):
+    import math as _m
+
+    if any(_m.isnan(goodness(i)) for i in inds):
+        # an aggregate without an order (inf on objectives of opposite directions): judged on the others only
+        rec.count("populations_with_an_unordered_aggregate")
+        out_j = [o for o in out if not _m.isnan(goodness(o))]
+        exc_j = [x for x in excluded if not _m.isnan(goodness(x))]
+    else:
+        out_j, exc_j = out, excluded
+    if exc_j and out_j and min(goodness(o) for o in out_j) < max(goodness(x) for x in exc_j):
         rec.violation(f"elitism:excluded-better-than-included:{'min' if case['minimize'] else 'max'}:{'multi' if case['multi'] else 'single'}", dict(wit, kept=[fit.table[id(o.get_phenotype())] for o in out], dropped=[fit.table[id(x.get_phenotype())] for x in excluded]))
         return
     rec.distinct_add([sorted(case["values"]), case["minimize"], case["k"], case["form"], case["multi"]])
